@@ -1,6 +1,7 @@
 package sim
 
 import (
+	"encoding/json"
 	"strings"
 	"bytes"
 	"fmt"
@@ -172,6 +173,8 @@ func (w *World) exec1(op Op) {
 			w.opBlockVisit(h, c, op)
 		case "write":
 			w.opWrite(h, c, op)
+		case "misc":
+			w.opMisc(h, c, op)
 		default:
 			w.Stats.Skipped++
 		}
@@ -895,7 +898,12 @@ func (w *World) opSet(h *StoreH, c *gkvlite.Collection, op Op) {
 	prio := op.Prio
 	if kind == "set" {
 		prio = PrioUnknown
-		w.protect(kind, func() { err = c.Set(key, val) })
+		if op.Var == "any" && key != nil {
+			// the same call through the interface{} front end
+			w.protect(kind, func() { err = c.SetAny(string(key), val) })
+		} else {
+			w.protect(kind, func() { err = c.Set(key, val) })
+		}
 	} else {
 		it = &gkvlite.Item{Key: key, Val: val, Priority: op.Prio}
 		if h.CB&CBRef != 0 {
@@ -934,7 +942,11 @@ func (w *World) opDel(h *StoreH, c *gkvlite.Collection, op Op) {
 	key := op.key()
 	var err error
 	var was bool
-	w.protect(kind, func() { was, err = c.Delete(key) })
+	if op.Var == "any" && key != nil {
+		w.protect(kind, func() { was, err = c.DeleteAny(string(key)) })
+	} else {
+		w.protect(kind, func() { was, err = c.Delete(key) })
+	}
 	if w.Viol != nil {
 		return
 	}
@@ -981,7 +993,11 @@ func (w *World) opGet(h *StoreH, c *gkvlite.Collection, op Op) {
 		var v []byte
 		var err error
 		w.Ledger.LastAddRef = nil
-		w.protect(kind, func() { v, err = c.Get(key) })
+		if op.Var == "any" && key != nil {
+			w.protect(kind, func() { v, err = c.GetAny(string(key)) })
+		} else {
+			w.protect(kind, func() { v, err = c.Get(key) })
+		}
 		if CompensateGetLeak && h.CB&CBRef != 0 && err == nil && v != nil && w.Ledger.LastAddRef != nil {
 			// known finding (C15): Get keeps the reference GetItem took and
 			// gives the caller no handle to release it; the harness adopts
@@ -1017,7 +1033,11 @@ func (w *World) opGet(h *StoreH, c *gkvlite.Collection, op Op) {
 		w.checkItem(kind, what, it, want, present, op.WV)
 	case "exist":
 		var ok bool
-		w.protect(kind, func() { ok = c.Exist(key) })
+		if op.Var == "any" && key != nil {
+			w.protect(kind, func() { ok = c.ExistAny(string(key)) })
+		} else {
+			w.protect(kind, func() { ok = c.Exist(key) })
+		}
 		if w.Viol != nil || !w.judges(kind) {
 			return
 		}
@@ -1549,5 +1569,41 @@ func (w *World) checkDurableIntact(di int, kind string) {
 	}
 	if d := stateDiff(dec.State(cmpOf), top.State); d != "" {
 		w.fail("durable-state-damaged", kind, "disk %d: after the failed call the file no longer holds the last flushed state: %s", di, d)
+	}
+}
+
+// opMisc: read-only entry points without a result worth modelling; they
+// must not panic, write, keep a version pinned or change anything (the
+// monitors and the next audit decide).
+func (w *World) opMisc(h *StoreH, c *gkvlite.Collection, op Op) {
+	kind := "misc"
+	switch op.N % 4 {
+	case 0:
+		out := map[string]uint64{}
+		w.protect(kind, func() { h.S.Stats(out) })
+		if w.Viol == nil && w.judges(kind) && h.SizeKnown && h.Disk >= 0 && !h.Snap {
+			if got, ok := out["fileSize"]; ok && int64(got) < h.Size {
+				w.fail("stats", kind, "Stats on s%d reports fileSize=%d, below the end of the last root record written or loaded (%d)", h.ID, got, h.Size)
+			}
+		}
+	case 1:
+		var b []byte
+		var err error
+		w.protect(kind, func() { b, err = c.MarshalJSON() })
+		if w.Viol == nil && w.judges(kind) {
+			if err != nil {
+				w.fail("marshal", kind, "Collection.MarshalJSON on s%d/%q: %v", h.ID, op.C, err)
+			} else if loc := (DLoc{}); json.Unmarshal(b, &loc) != nil {
+				w.fail("marshal", kind, "Collection.MarshalJSON on s%d/%q returned %q, not a root location", h.ID, op.C, b)
+			}
+		}
+	case 2:
+		w.protect(kind, func() { _ = c.AllocStats() })
+	case 3:
+		var n string
+		w.protect(kind, func() { n = c.Name() })
+		if w.Viol == nil && w.judges(kind) && n != op.C && !h.Snap {
+			w.fail("collection-name", kind, "Name() of collection %q on s%d = %q", op.C, h.ID, n)
+		}
 	}
 }
